@@ -9,9 +9,7 @@ HERE = os.path.dirname(os.path.dirname(os.path.abspath(__file__)))
 sys.path.insert(0, HERE)
 
 NOT_APPLICABLE = {
-    "C07": "Not applicable to static analysis: every clause ranges over the installed zoneinfo data x instants and over epoch "
-           "arithmetic values (offset lookup, local->UTC fixed point, per-occurrence offset correction); no clause is visible "
-           "in the shape of the code. See DESIGN.md section 4.",
+    # (C07 was listed here after the design round; it is now claimed for narrow structural clauses, see DESIGN.md sections 3 and 4)
 }
 
 props = [json.loads(l)["id"] for l in open(os.path.join(HERE, "properties.jsonl"))]
